@@ -200,6 +200,13 @@ func (e *Enc) encodeInstr(fr *Frame, ins ssa.Instruction, st *State, reach Term)
 		return e.runDefers(fr, st, reach)
 	case *ssa.Go:
 		e.note("go statement in %s: spawned goroutine not modelled", fr.fn.Name())
+		// the spawn itself is a counted event when the contracts declare
+		// "ghostvar gos int" (how many goroutines a function starts)
+		if e.CS.Ghosts["gos"] != nil {
+			key, srt, _ := e.ghostKey("gos")
+			cur := e.get(st, key, srt)
+			e.set(st, key, srt, ite(reach, "(+ "+cur+" 1)", cur))
+		}
 		return st
 	case *ssa.Send:
 		return e.encodeSend(fr, e.val(fr, t.Chan), e.val(fr, t.X), t.X.Type(), st, reach, "true")
@@ -834,6 +841,10 @@ func (e *Enc) scanBlockMods(fn *ssa.Function, b *ssa.BasicBlock, mods map[string
 		switch t := ins.(type) {
 		case *ssa.Store:
 			e.scanAddrMods(t.Addr, mods)
+		case *ssa.Go:
+			if e.CS.Ghosts["gos"] != nil {
+				mods["ghost.gos"] = true
+			}
 		case *ssa.MapUpdate:
 			mt := t.Map.Type().Underlying().(*types.Map)
 			mods[e.mapKey(mt, "dom")] = true
